@@ -31,3 +31,44 @@ CAMLprim value ml_blk(value vdec, value vci, value vkey, value vblk) {
                                   : gcry_cipher_encrypt(h, Bytes_val(res), n, String_val(vblk), n);
   gcry_cipher_close(h); if (e) caml_failwith("crypt"); CAMLreturn(res);
 }
+
+/* ---- compression: zlib (type 3) and bzlib (type 2), raw streams as zip.c calls them ---- */
+#include <zlib.h>
+#include <bzlib.h>
+#include <stdlib.h>
+static value some_string(const char *p, size_t n) {
+  CAMLparam0(); CAMLlocal2(s, o);
+  s = caml_alloc_string(n); memcpy(Bytes_val(s), p, n);
+  o = caml_alloc(1, 0); Store_field(o, 0, s); CAMLreturn(o);
+}
+/* zip_compress_block with the buffer zip_compress_length() provides (minus the 8-byte header) */
+CAMLprim value ml_zcomp(value vtype, value vsrc) {
+  CAMLparam2(vtype, vsrc); CAMLlocal1(res);
+  int type = Int_val(vtype); size_t len = caml_string_length(vsrc);
+  int buf_len = (type == 2) ? (int)((len * 1.01) + 600 + 1 + 8) : (int)((len * 1.001) + 12 + 1 + 8);
+  unsigned int xdstlen = buf_len - 8; char *dst = malloc(xdstlen ? xdstlen : 1); int ok = 0;
+  if (len == 0) { free(dst); CAMLreturn(Val_int(0)); }
+  if (type == 2) {
+    ok = BZ2_bzBuffToBuffCompress(dst, &xdstlen, (char *) String_val(vsrc), len, 9, 0, 0) == BZ_OK;
+  } else if (type == 3) {
+    unsigned long ul = xdstlen;
+    ok = compress((Bytef *) dst, &ul, (const Bytef *) String_val(vsrc), len) == Z_OK; xdstlen = ul;
+  }
+  if (!ok) { free(dst); CAMLreturn(Val_int(0)); }
+  res = some_string(dst, xdstlen); free(dst); CAMLreturn(res);
+}
+/* zip_decompress_block: succeeds iff the stream is valid and its output fits in maxlen bytes */
+CAMLprim value ml_zdecomp(value vtype, value vsrc, value vmax) {
+  CAMLparam3(vtype, vsrc, vmax); CAMLlocal1(res);
+  int type = Int_val(vtype); size_t len = caml_string_length(vsrc); long maxlen = Long_val(vmax);
+  long cap = maxlen > (256L << 20) ? (256L << 20) : maxlen;
+  unsigned int xdstlen = cap; char *dst = malloc(cap ? cap : 1); int ok = 0;
+  if (type == 2) {
+    ok = BZ2_bzBuffToBuffDecompress(dst, &xdstlen, (char *) String_val(vsrc), len, 0, 0) == BZ_OK;
+  } else if (type == 3) {
+    unsigned long ul = xdstlen;
+    ok = uncompress((Bytef *) dst, &ul, (const Bytef *) String_val(vsrc), len) == Z_OK; xdstlen = ul;
+  }
+  if (!ok) { free(dst); CAMLreturn(Val_int(0)); }
+  res = some_string(dst, xdstlen); free(dst); CAMLreturn(res);
+}
